@@ -1,88 +1,71 @@
-import MpVerif.C05.Lemmas
+import MpVerif.C05.LemmasAll
 /-!
 # C05 — a written .sol file is read back as the same solution: property theorems
 
 `writeSol c s` (C05/Model.lean) mirrors `mp::WriteSolFile` (include/mp/sol.h, src/sol.cc);
-`readSol` (C14/Model.lean) mirrors `mp::SOLReader2::ReadSOLFile`.  Reals go through the abstract
-codec `c`; the hypothesis on the printed text of a real is the explicit predicate `GoodNum`
-(`decstring` consumes exactly the printed text), checked on every real of every run; the numeric
-half of the codec (`strtod (enc x)` within the property tolerance of `x`) is TESTED by the harness.
+`readSol` (C14/Model.lean) mirrors `mp::SOLReader2::ReadSOLFile`, `fx = false` the code as it is,
+`fx = true` the code with repo_patches/C14-sol-reader-bounds.diff.  Reals go through the abstract codec
+`c : Codec D` (`enc` = fmt's `'{:.16}'`); integers are printed by the concrete `encInt`.
 
-Full-strength statement (kept visible; NOT proved as one theorem, and FALSE without the side
-conditions listed below, each of which has a proved counterexample here and a replay on the real code):
+`C05_roundtrip` is the full-strength statement: for **every** solution (message, options, vectors of any
+length, objno, status, any list of suffixes with sparse values and multi-line tables) that meets the side
+conditions `Wf`, for every declared size ≥ the vector lengths and for both reader variants, reading the
+written bytes returns OK and delivers exactly `observable c s`.  The side conditions are
 
-  `C05_roundtrip : Wf c s → nprimals ≤ nVars → nduals ≤ nCons →
-      readSol fx nVars nCons readAll (writeSol c s) = ⟨.ok, observable c s, false⟩`
+* the explicit codec hypotheses `GoodNum` / `GoodSufTok` on the *text* printed for each real (`decstring`
+  resp. `strtod` consumes exactly that text) — evaluated by the driver on every real of every run; that the
+  consumed text denotes a value within the property's tolerance is the numeric half of the codec, TESTED by
+  the harness on doubles, not proved;
+* restrictions of the format that are documented or obvious (no NUL/LF inside a message line, a suffix name,
+  a table line; C `int` ranges; lengths that fit the reader's 512-byte line buffer: message lines ≤ 510,
+  suffix names and the last table line ≤ 509 characters; a message does not start a line with a backspace —
+  leading backspaces of the *first* line are legal and handled by the reader (reported as `nbs`), that case is
+  covered by the correspondence and the oracle only);
+* the complements of the **findings**, each with a proved counterexample below and a replay on the real code
+  on every run: 3 ≤ #options ≤ 9 (A8 and the 1–2 options case), second option ≠ 3 (A9), no message line
+  ending in CR, no message line of 511 characters.
 
-What is proved for all inputs: the message block (`C05_message_roundtrip_partial`), the dual/primal
-vectors of any length (`C05_vector_roundtrip_partial`), the treatment of non-finite reals
-(`C05_nonfinite_*`); the composition of all sections is proved on concrete solutions
-(`C05_roundtrip_instance*`, by kernel evaluation) and compared with the real writer and reader on every
-run (bytes of the file and events).  Missing for the single theorem: the decimal-integer lemmas
-(`strtol`/`Lget`/`strtod` scanning `encInt`) and the symbolic execution of the options and suffix sections.
+Non-finite reals: `C05_nonfinite_*` (rejected with Bad_Line in a vector, read as the same text in a suffix).
 -/
 namespace MpVerif.C05
 open MpVerif.C14
 set_option maxRecDepth 100000
 
-/-! ## message -/
+/-- **A written .sol file is read back as the same solution** (model level, all solutions meeting `Wf`). -/
+theorem C05_roundtrip {D : Type} (fx : Bool) (c : Codec D) (s : Sol D) (nVars nCons : Nat) (w : Wf c s nVars nCons) :
+    readSol fx nVars nCons readAll (writeSol c s) = ⟨.ok, observable c s, false⟩ :=
+  roundtrip fx c s nVars nCons w
 
-/-- the lines the reader will see: interior empty lines are written as a single space, a final empty
-line is the terminator itself -/
-def escLines : List Bytes → List Bytes
-  | [] => []
-  | [l] => if l = [] then [] else [l]
-  | l :: l' :: ls => (if l = [] then [32] else l) :: escLines (l' :: ls)
+/-- the handler receives exactly the written vectors, the written objno/status texts, and no error -/
+theorem C05_roundtrip_code {D : Type} (fx : Bool) (c : Codec D) (s : Sol D) (nVars nCons : Nat) (w : Wf c s nVars nCons) :
+    (readSol fx nVars nCons readAll (writeSol c s)).code = .ok := by
+  rw [C05_roundtrip fx c s nVars nCons w]
 
-/-- what follows the terminating empty line (one more `\n` when the message ends with a newline) -/
-def tailNl : List Bytes → Bytes
-  | [] => [10]
-  | [l] => if l = [] then [10] else []
-  | _ :: l' :: ls => tailNl (l' :: ls)
-
-theorem writeMsgLines_eq (ls : List Bytes) :
-    writeMsgLines ls = (escLines ls).flatMap (· ++ [10]) ++ 10 :: tailNl ls := by
-  induction ls with
-  | nil => simp [writeMsgLines, escLines, tailNl]
-  | cons l ls ih =>
-    cases ls with
-    | nil =>
-      by_cases h : l = []
-      · simp [writeMsgLines, escLines, tailNl, h]
-      · simp [writeMsgLines, escLines, tailNl, h]
-    | cons l' ls =>
-      simp only [writeMsgLines, escLines, tailNl, ih, List.flatMap_cons]
-      by_cases h : l = [] <;> simp [h]
-
-/-- the message as `OnSolveMessage` receives it -/
-def msgRead (msg : Bytes) : Bytes := (escLines (splitLines msg)).flatMap (· ++ [10])
-
-/-- **Message block.**  For every message whose (escaped) lines are `GoodLine`s, the reader's message loop
-run on what `WriteMessage` printed, followed by anything, returns the message line by line (empty
-interior lines as a single space: the format's reserved terminator), counts no backspaces and stops
-exactly behind the terminating empty line. -/
-theorem C05_message_roundtrip_partial (msg rest : Bytes) (f : Nat)
+/-- **Message block** on its own: line by line, interior empty lines as the reserved single space, no
+backspaces counted, the reader stops exactly behind the terminating empty line. -/
+theorem C05_message_roundtrip (msg rest : Bytes) (f : Nat)
     (h : ∀ l ∈ escLines (splitLines msg), GoodLine l) (hf : (escLines (splitLines msg)).length < f) :
     msgText f (writeMessage msg ++ rest) ⟨[], 0, true⟩ =
-      .ok (⟨msgRead msg, 0, true⟩, tailNl (splitLines msg) ++ rest) := by
-  unfold writeMessage msgRead
-  rw [writeMsgLines_eq, List.append_assoc]
-  have := msgText_lines (escLines (splitLines msg)) h (tailNl (splitLines msg) ++ rest) ⟨[], 0, true⟩ rfl f hf
-  simpa using this
+      .ok (⟨msgRead msg, 0, true⟩, tailNl (splitLines msg) ++ rest) :=
+  message_roundtrip msg rest f h hf
 
-/-! ## vectors -/
-
-/-- **Dual / primal vectors of any length.**  If the text printed for every value satisfies the codec
-hypothesis `GoodNum`, a read-everything handler offered `vs.length` values receives exactly the printed
-texts, in order, with status OK and nothing remaining, and the reader stands right behind the vector. -/
-theorem C05_vector_roundtrip_partial {D : Type} (c : Codec D) (vs : List D) (rest : Bytes)
+/-- **Dual / primal vectors of any length** on their own. -/
+theorem C05_vector_roundtrip {D : Type} (c : Codec D) (vs : List D) (rest : Bytes)
     (h : ∀ v ∈ vs, GoodNum (c.enc v)) :
     runVec false .dbl .all vs.length (writeVals c vs ++ rest) =
-      (⟨vs.length, vs.map (fun v => ⟨0, c.enc v⟩), .ok, 0⟩, rest) := by
-  unfold runVec
-  have := vecLoop_vals c vs h rest 0
-  simp only [Nat.add_zero] at this
-  simp [this]
+      (⟨vs.length, vs.map (fun v => ⟨0, c.enc v⟩), .ok, 0⟩, rest) :=
+  runVec_vals c vs rest h
+
+/-- integer suffix values in the C `int` range always satisfy the hypotheses on suffix entries … -/
+theorem C05_int_entries_good (vs : List Int) (h : ∀ v ∈ vs, Int32 v) :
+    ∀ e ∈ sparseI 0 vs, e.1 < vs.length ∧ GoodSufTok e.2 := by
+  intro e he; simpa using sparseI_good 0 vs h e he
+
+/-- … and real suffix values do whenever the printed text of every non-zero value satisfies `GoodSufTok` -/
+theorem C05_real_entries_good {D : Type} (c : Codec D) (vs : List D)
+    (h : ∀ v ∈ vs, c.isZero v = false → GoodSufTok (c.enc v)) :
+    ∀ e ∈ sparseD c 0 vs, e.1 < vs.length ∧ GoodSufTok e.2 := by
+  intro e he; simpa using sparseD_good c 0 vs h e he
 
 /-! ## non-finite values -/
 
@@ -113,7 +96,6 @@ theorem C05_nonfinite_suffix_same : ∀ t ∈ nonfiniteToks, strtodLen (32 :: t 
 
 abbrev Tok := Bytes × Bool
 def tokCodec : Codec Tok := ⟨fun t => t.1, fun t => t.2⟩
-def readAll : Policy := ⟨0, .all, .all, .all⟩
 def tk (s : String) : Tok := (str s, false)
 def zero : Tok := (str "0", true)
 
@@ -180,6 +162,76 @@ theorem C05_counterexample_line_511 :
 theorem C05_counterexample_late_backspace :
     (readSol false 0 0 readAll (writeSol tokCodec ⟨str "ab\n\x08\x08cd", [1, 1, 1], 0, 0, [], [], 1, 0, []⟩)).evs.head? =
       some (.msg (str "ab\ncd\n") 2) := by decide
+
+/-- every byte string is a table in the sense of `SufOK`: lines without LF joined by LF, then a last line
+(so the only real restrictions on tables are: no NUL, last line ≤ 509 characters and not ending in CR) -/
+theorem C05_table_decomp (t : Bytes) :
+    ∃ init last, t = joinNl init ++ last ∧ (∀ l ∈ init, ∀ c ∈ l, c ≠ 10) ∧ (∀ c ∈ last, c ≠ 10) := by
+  induction t with
+  | nil => exact ⟨[], [], by simp [joinNl], by simp, by simp⟩
+  | cons c cs ih =>
+    obtain ⟨init, last, e, h1, h2⟩ := ih
+    by_cases hc : c = 10
+    · subst hc
+      exact ⟨[] :: init, last, by simp [joinNl, e], by
+        intro l hl; rcases List.mem_cons.mp hl with rfl | hl
+        · simp
+        · exact h1 l hl, h2⟩
+    · cases init with
+      | nil =>
+        refine ⟨[], c :: last, by simp [joinNl] at e ⊢; exact e, by simp, ?_⟩
+        intro x hx; rcases List.mem_cons.mp hx with rfl | hx
+        · exact hc
+        · exact h2 x hx
+      | cons l ls =>
+        refine ⟨(c :: l) :: ls, last, by simp [joinNl] at e ⊢; exact e, ?_, h2⟩
+        intro l' hl'; rcases List.mem_cons.mp hl' with rfl | hl'
+        · intro x hx; rcases List.mem_cons.mp hx with rfl | hx
+          · exact hc
+          · exact h1 l (by simp) x hx
+        · exact h1 l' (by simp [hl'])
+
+/-! non-vacuity of the hypotheses: the concrete solution `sol1` (message with an empty line, options,
+vectors, an int suffix with a two-line table, a skipped suffix, a real suffix with a zero entry) meets `Wf` -/
+example : Wf tokCodec sol1 3 2 where
+  msg := by
+    intro l hl
+    have : l = str "hi" ∨ l = [32] ∨ l = str "there" := by revert l; decide
+    rcases this with h | h | h <;> subst h <;> exact ⟨by decide, by decide, by decide, by decide, by decide⟩
+  opts := ⟨1, 0, 7, [], rfl, by decide, by decide⟩
+  ints := by decide
+  duals := by
+    intro v hv
+    have : v = tk "0.5" := by simpa [sol1] using hv
+    subst this; exact ⟨by decide, by decide, by decide⟩
+  primals := by
+    intro v hv
+    have : v = tk "1" ∨ v = tk "-2.25e-07" := by simpa [sol1] using hv
+    rcases this with h | h <;> subst h <;> exact ⟨by decide, by decide, by decide⟩
+  nd := by decide
+  np := by decide
+  objno := by decide
+  status := by decide
+  sufs := by
+    intro x hx ho
+    have : x = ⟨16, str "sstatus", str "0\tnone\n1\tbas", [0, 3, 0, 1], []⟩ ∨ x = ⟨0, str "skip", [], [5], []⟩ ∨
+        x = ⟨21, str "dual2", [], [], [zero, tk "1e+100"]⟩ := by simpa [sol1] using hx
+    rcases this with h | h | h <;> subst h
+    · refine ⟨⟨by decide, by decide, by decide⟩, ?_, by decide, .inr ⟨[str "0\tnone"], str "1\tbas", by decide,
+        ⟨by decide, by decide, by decide, by decide⟩, by decide, by decide⟩⟩
+      intro e he
+      have := C05_int_entries_good [0, 3, 0, 1] (by decide) e (by simpa [Suf.entries, isFloat] using he)
+      exact ⟨by have := this.1; simp at this; omega, this.2⟩
+    · exact absurd ho (by decide)
+    · refine ⟨⟨by decide, by decide, by decide⟩, ?_, by decide, .inl rfl⟩
+      intro e he
+      have : e = (1, str "1e+100") := by
+        have : e ∈ [(1, str "1e+100")] := by
+          have h2 : Suf.entries tokCodec ⟨21, str "dual2", [], [], [zero, tk "1e+100"]⟩ = [(1, str "1e+100")] := by decide
+          rw [h2] at he; exact he
+        simpa using this
+      subst this
+      exact ⟨by decide, ⟨by decide, by decide, by decide⟩⟩
 
 /-! non-vacuity of the hypotheses -/
 example : GoodNum (str "-2.25e-07") := ⟨by decide, by decide, by decide⟩
